@@ -16,7 +16,8 @@
    satisfiable on concrete mutated documents under the Gallina ChaCha20-Poly1305 / HMAC
    (Examples in C02/Proofs_Concrete.v).  [effective_key] = the file key Decrypt ends up with
    (what the unwrap callback returned, or the all-zero key when it failed). *)
-From Kit Require Import C02.Defs C02.Proofs C02.Proofs_Concrete C01.Concrete C01.Proofs_Segments C01.Proofs_Oracle.
+From Kit Require Import C02.Defs C02.Proofs C02.Proofs_Concrete C01.Concrete C01.Proofs_Segments C01.Proofs_Oracle
+     C01.ModelX C02.ProofsX C02.ProofsX_Concrete.
 
 (* Release only after open (no premise, any input, any unwrap callback): when Decrypt returns a
    stream, the header MAC was verified under the key in use, and every chunk handed to the
@@ -211,3 +212,40 @@ Theorem C02_oracle_sound :
      (src_failed = true -> clean = false)).
 Proof. exact tamper_oracle_sound. Qed.
 Print Assumptions C02_oracle_sound.
+
+(* ---- errors delivered TOGETHER with data ---- *)
+
+(* The model over readers that may return data together with a non-EOF error, once or on every
+   later call too (C01/ReaderX.v, C01/ModelX.v; this is the model the correspondence check
+   evaluates) extends the one the theorems above are about: on every script of Lib/Reader.v it
+   computes the same result, for both variants of readHeader. *)
+Theorem C02_extended_model_agrees :
+  forall (C : crypto) (v hv : variant) (S H : nat)
+         (unwrap : list N -> list N -> list N -> list N * bool) (optkn : list N) (sc : list rd),
+    decrypt_stream_x C v hv S H unwrap optkn (emb sc) = decrypt_stream C v S H unwrap optkn sc.
+Proof. exact decrypt_stream_x_emb. Qed.
+Print Assumptions C02_extended_model_agrees.
+
+(* Source errors surface, in full generality (no premise; current tree = readHeader variant
+   Fixed): whatever the source delivers before, with, or after its first non-EOF error — the
+   error alone or TOGETHER with data, reported once or on every later call, in the header, with
+   the very read that completes the header, in any segment or with the last byte of the
+   document — Decrypt returns an error or the stream ends with one; never a clean EOF. *)
+Theorem C02_source_error_surfaces_with_data :
+  forall (C : crypto) (v : variant) (S H : nat)
+         (unwrap : list N -> list N -> list N -> list N * bool) (optkn : list N) (xs : list rdx),
+    xends_eof xs = false -> is_clean (decrypt_stream_x C v Fixed S H unwrap optkn xs) = false.
+Proof. exact source_error_surfaces_x. Qed.
+Print Assumptions C02_source_error_surfaces_with_data.
+
+(* Before fix fixes/C02-header-read-error.patch (readHeader variant Original) this was FALSE: the
+   error of the Read call that completed the header was dropped.  A source that returns the
+   whole document together with a non-EOF error and then reports EOF gets its plaintext back
+   with a clean EOF (computed on the concrete primitives); with the fix Decrypt fails. *)
+Theorem C02_header_read_error_dropped_refuted :
+  exists (xs : list rdx) (p : list N),
+    p <> [] /\ xends_eof xs = false /\
+    decrypt_stream_x concrete Fixed Original 2 400 ex_unwrap [] xs = DecStream p SClean /\
+    decrypt_stream_x concrete Fixed Fixed 2 400 ex_unwrap [] xs = DecCallError DEHeader.
+Proof. exact header_read_error_dropped_refuted. Qed.
+Print Assumptions C02_header_read_error_dropped_refuted.
